@@ -161,9 +161,15 @@ def parseOp (reg : List (String × TypeId)) (i : Nat) (op : String) : Option (Li
     | _ => none
   | _ => none
 
+def insertSorted (x : Nat) : List Nat → List Nat
+  | [] => [x]
+  | y :: ys => if x ≤ y then x :: y :: ys else y :: insertSorted x ys
+
+/-- per channel the ids SORTED: SubscribeMsg merges one channel per type with a goroutine each, so the order
+between messages of different types on one subscriber channel is not determined by the code -/
 def showOuts (nch : Nat) (os : List Out) : String :=
   String.intercalate " " <| (List.range nch).map fun ch =>
-    let ids := (os.filter fun o => o.ch = ch).map fun o => toString o.id
+    let ids := ((os.filter fun o => o.ch = ch).map fun o => o.id).foldr insertSorted [] |>.map toString
     s!"c{ch}=" ++ (if ids.isEmpty then "-" else String.intercalate "," ids)
 
 def maxCh : List Ev → Nat
@@ -178,6 +184,7 @@ def stepSub (c : Cfg) (reg : List (String × TypeId)) (ops : String) : String :=
   | some evss =>
     let evs := evss.flatten
     let n := (evs.filter fun e => match e with | .msg _ _ => true | _ => false).length
-    (showOuts (maxCh evs) (run c [] evs).2 ++ s!" n={n}").trim
+    let outs := showOuts (maxCh evs) (run c [] evs).2
+    if outs == "" then s!"n={n}" else outs ++ s!" n={n}"
 
 end Dos.P2PSub
